@@ -21,7 +21,7 @@ AllFamilies == {"turbo", "turbopol", "turbomask", "std_same", "std_alt", "std_al
 
 NxUpTo(nd, lo, hi) == { AsTup(nd, f) : f \in [1..nd -> lo..hi] }
 NxQuick(nd) == NxUpTo(nd, 2, 3)
-NxThor(nd)  == NxUpTo(nd, 2, 4)
+NxThor(nd)  == NxUpTo(nd, 2, IF nd = 1 THEN 6 ELSE IF nd = 2 THEN 5 ELSE 4)
 
 \* mesh sizes are multiples of 5/4 so that the coordinates rotated by the 3-4-5 angle are exact in doubles
 G(ang, dxn, dxd, x0) == [ang |-> ang, dxn |-> dxn, dxd |-> dxd, x0 |-> x0]
